@@ -167,6 +167,8 @@ type sim struct {
 	inSweep    bool
 
 	lab *types.ValidatorSet
+
+	classMemo map[string]string
 }
 
 var (
@@ -185,7 +187,7 @@ func key(i int) crypto.PrivKey {
 func newSim(env *simcore.Env, cfg simcore.Op) simcore.Sim {
 	s := &sim{env: env, cfg: cfg, chainID: "storesim-chain", init: cfg.Int64("init"), partSize: uint32(cfg.Int("part")),
 		blocks: map[int64]*blk{}, vals: map[int64]*types.ValidatorSet{}, params: map[int64]tmproto.ConsensusParams{}, paramTouched: map[int64]bool{},
-		lastPoints: map[string]int{"block": 30, "prune": 6}, opsLeft: cfg.Int("nops")}
+		lastPoints: map[string]int{"block": 30, "prune": 6}, opsLeft: cfg.Int("nops"), classMemo: map[string]string{}}
 	if s.init <= 0 {
 		s.init = 1
 	}
